@@ -8,9 +8,9 @@
                                                         ordered and non-overlapping, entry = first/last timestamp;
                                                         arbitrary overlap ACROSS files; any tombstone ranges *)
         MinInt64 < t < MaxInt64 ->                    (* at t = MinInt64 the code's [t-1] wraps *)
-        (length (locations fs t asc) <= 12)%nat ->     (* sort.Sort = insertion sort (see Model/C06.v);
-                                                        by [C06_sort_overlapping_in_generation_order] the
-                                                        bound is not needed for the model's insertion sort *)
+        (length (locations fs t asc) <= 12)%nat ->     (* sort.Sort = insertion sort (see Model/C06.v); beyond 12
+                                                        the statement is FALSE for the real code:
+                                                        [C06_over_12_locations_refuted] *)
         exists bs, run_cursor mrg fs t asc = Some bs /\
                    flatten asc bs = live_points_newest_wins fs t asc.
 
@@ -23,6 +23,10 @@
       - the ORDER fact the newest-wins half rests on ([C06_sort_overlapping_in_generation_order]):
         insertion sort with the non-transitive comparator leaves any two time-overlapping locations
         in generation order (the older file first), for any number of locations.
+    REFUTED outside the hypotheses of the full statement (both confirmed on the real code):
+      - [C06_over_12_locations_refuted]: with more than 12 locations [sort.Sort] is pdqsort and the
+        cursor returns an overwritten value (known finding over-12-locations-sort-breaks-newest-wins);
+      - [C06_seek_at_int64_extreme_refuted]: seek at MinInt64 / MaxInt64 returns nothing.
     The COMPLETENESS half (every live point is returned, exactly once, with the newest value, blocks in
     order) is proved only on a finite family ([C06_keycursor_spec_small_partial], by exhaustive
     evaluation, bound in the statement); beyond it, it is only tested: the correspondence check
@@ -91,6 +95,47 @@ Proof.
   vm_compute. repeat split; discriminate.
 Qed.
 Print Assumptions C06_seek_at_int64_extreme_refuted.
+
+(** More than 12 locations: Go's [sort.Sort] is then pdqsort, and because [Less] is not a strict weak
+    order its result is not determined by [Less]; it can put a block of a NEWER file before an
+    overlapping block of an OLDER file, and the cursor (which merges in [seeks] order, later wins) then
+    returns the OVERWRITTEN value.  Witness: 5 files, 13 blocks; [ord] is the order that go1.23.5's
+    [sort.Sort(ascLocations)] left in [c.seeks] on the real code (read through [KeyCursor.VerifSeeks];
+    replays/C06-over-12-locations.json): block [6,7,8] of file 4 comes before the overlapping block
+    [7,11] of the older file 3, and timestamp 7 is returned with file 3's value 40 instead of 50.
+    With the insertion-sort order of the model the same layout is read correctly. *)
+Definition w13_files : list (tfile Z) :=
+  let blk (v : Z) (ts : list Z) := {| b_min := hd 0 ts; b_max := last ts 0; b_data := map (fun t => (t, v)) ts |} in
+  let file (bs : list (block Z)) := {| f_blocks := bs; f_tombs := []; f_tmin := 0; f_tmax := 40 |} in
+  [ file [blk 10 [3]; blk 11 [25; 27; 31]];
+    file [blk 20 [9; 10; 14; 16]; blk 21 [19; 23]];
+    file [blk 30 [9; 13]; blk 31 [16; 20; 23; 24]; blk 32 [25]; blk 33 [28]];
+    file [blk 40 [7; 11]; blk 41 [23; 26; 30; 34]];
+    file [blk 50 [6; 7; 8]; blk 51 [9; 12]; blk 52 [31; 35]] ].
+Definition w13_order : list (nat * Z) :=
+  map (fun p : Z * Z => (Z.to_nat (fst p), snd p))
+    [(0, 3); (4, 6); (1, 9); (2, 9); (3, 7); (4, 9); (1, 19); (2, 16); (0, 25); (2, 25); (2, 28); (3, 23); (4, 31)].
+
+Theorem C06_over_12_locations_refuted :
+  let t := -9223372036854775806 in
+  forallb file_wf_b w13_files = true /\ MinInt64 < t < MaxInt64 /\
+  length (locations w13_files t true) = 13%nat /\
+  exists s bs,
+    reorder (locations w13_files t true) w13_order = Some s /\
+    run_cursor_on arr_merge w13_files s t true = Some bs /\
+    run_cursor_on vals_merge w13_files s t true = Some bs /\
+    lookup 7 (flatten true bs) = Some 40 /\
+    lookup 7 (live_points_newest_wins w13_files t true) = Some 50 /\
+    (exists bs', run_cursor arr_merge w13_files t true = Some bs' /\
+                 flatten true bs' = live_points_newest_wins w13_files t true).
+Proof.
+  cbv zeta. split; [vm_compute; reflexivity|]. split; [unfold MinInt64, MaxInt64; lia|].
+  split; [vm_compute; reflexivity|].
+  eexists. eexists. split; [vm_compute; reflexivity|]. split; [vm_compute; reflexivity|].
+  split; [vm_compute; reflexivity|]. split; [vm_compute; reflexivity|]. split; [vm_compute; reflexivity|].
+  eexists. split; vm_compute; reflexivity.
+Qed.
+Print Assumptions C06_over_12_locations_refuted.
 
 (** Non-vacuity: two overlapping files with a tombstone each; the cursor returns the newest-wins merge
     in both directions, and the hypotheses of the theorems hold for this layout. *)
